@@ -133,4 +133,91 @@ theorem specAddAll_prefix (dur : Nat) : ∀ (gs : List Group) (l : List Group) (
     · exact (List.prefix_append l _).trans (ih _ _)
     · exact List.prefix_refl l
 
+
+theorem addCheck_ok_of {c : Chain} {g : Group} (h1 : shas c.disk g.id = false)
+    (h2 : shas c.disk g.parent = true) (h3 : c.last.id = g.pre) : addCheck c g = .ok := by
+  unfold addCheck
+  simp [h1, h2, h3]
+
+theorem shas_save (c : Chain) (g : Group) (k : Bytes) (hk : IdOK k) :
+    shas (save c g).disk k = (decide (k = g.id) || shas c.disk k) := by
+  unfold shas
+  simp only [save]
+  rw [sget_save]
+  by_cases e : k = g.id
+  · subst e; simp [hk.ne_cntKey, hk.ne_hkey, hk.ne_curKey]
+  · simp [hk.ne_cntKey, hk.ne_hkey, hk.ne_curKey, e]
+
+/-- A well-formed fork — ids proper, pairwise distinct and not stored, parents stored, predecessor
+    links starting at the current last group — is adopted completely. -/
+theorem addAll_wellformed (dur : Nat) : ∀ (gs : List Group) (l : List Group) (c : Chain), Rep l c →
+    (∀ g ∈ gs, IdOK g.id ∧ IdOK g.parent) → (gs.map (·.id)).Nodup →
+    (∀ g ∈ gs, shas c.disk g.id = false) → (∀ g ∈ gs, shas c.disk g.parent = true) →
+    Linked c.last.id gs → l.length + gs.length < lenBound →
+    (addAll dur gs c).2 = true ∧
+      specAddAll dur gs l c = l ++ stampFrom l.length (gs.map (prepare dur)) := by
+  intro gs
+  induction gs with
+  | nil => intro l c _ _ _ _ _ _ _; simp [addAll, specAddAll, stampFrom]
+  | cons g t ih =>
+    intro l c r hid hnd hfr hpar hlk hb
+    have hok : addCheck c (prepare dur g) = .ok :=
+      addCheck_ok_of (hfr g (by simp)) (hpar g (by simp)) hlk.1.symm
+    have e : addGroup c (prepare dur g) = (.ok, save c (prepare dur g)) := by simp [addGroup, hok]
+    have hadd : addAll dur (g :: t) c = addAll dur t (save c (prepare dur g)) := by
+      simp [addAll, addGroupD, e]
+    have ha := rep_add r (prepare dur g) (by simp at hb; omega) (hid g (by simp)).1 hok
+    have hnd' : g.id ∉ t.map (·.id) ∧ (t.map (·.id)).Nodup := by
+      have := hnd; simp only [List.map_cons] at this; exact List.nodup_cons.mp this
+    have := ih (l ++ [stamped l.length (prepare dur g)]) (save c (prepare dur g)) ha.2
+      (fun x hx => hid x (by simp [hx])) hnd'.2
+      (by
+        intro x hx
+        rw [shas_save _ _ _ (hid x (by simp [hx])).1]
+        have hne : x.id ≠ g.id := fun e => hnd'.1 (by rw [← e]; exact List.mem_map.mpr ⟨x, hx, rfl⟩)
+        simp [prepare, hne, hfr x (by simp [hx])])
+      (by
+        intro x hx
+        rw [shas_save _ _ _ (hid x (by simp [hx])).2]
+        simp [hpar x (by simp [hx])])
+      (by exact hlk.2)
+      (by simp at hb ⊢; omega)
+    rw [hadd]
+    refine ⟨this.1, ?_⟩
+    simp only [specAddAll, hok, if_true]
+    rw [this.2]
+    simp [stampFrom, List.append_assoc]
+
+
+def minerFold (m : Bytes) (L : List (Option Group)) : Option (List Group) :=
+  L.foldr (fun og acc =>
+    match og, acc with
+    | some g, some l => some (if m ∈ g.members then g :: l else l)
+    | _, _ => none) (some [])
+
+theorem minerFold_some (m : Bytes) : ∀ (L : List (Option Group)), (∀ og ∈ L, ∃ g, og = some g) →
+    ∃ r, minerFold m L = some r ∧ ∀ g ∈ r, some g ∈ L ∧ m ∈ g.members := by
+  intro L
+  induction L with
+  | nil => intro _; exact ⟨[], rfl, by simp⟩
+  | cons a t ih =>
+    intro h
+    obtain ⟨g, rfl⟩ := h a (by simp)
+    obtain ⟨r, e, hr⟩ := ih (fun og hog => h og (by simp [hog]))
+    unfold minerFold at e ⊢
+    simp only [List.foldr_cons, e]
+    by_cases hm : m ∈ g.members
+    · refine ⟨g :: r, by simp [hm], ?_⟩
+      intro x hx
+      simp only [List.mem_cons] at hx
+      rcases hx with rfl | hx
+      · exact ⟨by simp, hm⟩
+      · exact ⟨by simp [(hr x hx).1], (hr x hx).2⟩
+    · refine ⟨r, by simp [hm], ?_⟩
+      intro x hx
+      exact ⟨by simp [(hr x hx).1], (hr x hx).2⟩
+
+theorem availableByMiner_eq (c : Chain) (h : Nat) (m : Bytes) :
+    availableByMiner c h m = minerFold m (availableAt c h) := rfl
+
 end Rangers.Model.GroupChain
